@@ -24,12 +24,12 @@ var fsMutators = map[string]bool{
 }
 
 var c11AllowedMutators = map[string]string{
-	"generator.GenOpts.write › os.WriteFile":           "the single writer of generated files, behind the SkipExists test (R1)",
-	"generator.GenOpts.write › os.MkdirAll":            "creates the target directory of a file about to be written",
-	"generator.WithAutoXOrder › os.MkdirTemp":          "temporary copy of the spec with x-order (outside the target)",
-	"generator.WithAutoXOrder › os.WriteFile":          "temporary copy of the spec with x-order (outside the target)",
-	"generator.WithAutoXOrder › os.CreateTemp":         "temporary copy of the spec with x-order (outside the target)",
-	"generator.AddXOrderOnProperty › os.WriteFile":     "x-order pre-processing of a temporary spec copy",
+	"generator.GenOpts.write › os.WriteFile":       "the single writer of generated files, behind the SkipExists test (R1)",
+	"generator.GenOpts.write › os.MkdirAll":        "creates the target directory of a file about to be written",
+	"generator.WithAutoXOrder › os.MkdirTemp":      "temporary copy of the spec with x-order (outside the target)",
+	"generator.WithAutoXOrder › os.WriteFile":      "temporary copy of the spec with x-order (outside the target)",
+	"generator.WithAutoXOrder › os.CreateTemp":     "temporary copy of the spec with x-order (outside the target)",
+	"generator.AddXOrderOnProperty › os.WriteFile": "x-order pre-processing of a temporary spec copy",
 }
 
 func checkC11(c *Ctx) {
@@ -134,26 +134,26 @@ func checkC11(c *Ctx) {
 	c.Rule("C11.R4.target-reads", "the generator tests the target only through fileExists (os.Stat) and the os.Stat before MkdirAll; it never reads target file content", 2)
 	readers := map[string]bool{"os.Stat": true, "os.Lstat": true, "os.ReadFile": true, "os.Open": true, "os.ReadDir": true, "io/ioutil.ReadFile": true, "io/ioutil.ReadDir": true, "path/filepath.Walk": true, "path/filepath.WalkDir": true, "path/filepath.Glob": true}
 	allowedReaders := map[string]string{
-		"fileExists › os.Stat":              "the SkipExists test",
-		"GenOpts.render › os.ReadFile":      "reads a custom template file named by the layout configuration (input)",
-		"ReadConfig › os.Open":              "config file (input)",
-		"GenOpts.write › os.Stat":           "directory existence before MkdirAll",
-		"Repository.LoadDir › os.ReadFile":  "custom templates (input)",
-		"Repository.LoadDir › path/filepath.Walk": "custom templates (input)",
-		"GenOpts.CheckOpts › os.Stat":       "existence of the spec / template dir / target (inputs)",
-		"GenOpts.EnsureDefaults › os.Stat":  "inputs",
-		"findSwaggerSpec › os.Stat":         "locating the input spec",
-		"ReadConfig › os.Stat":              "config file (input)",
-		"WithAutoXOrder › os.ReadFile":      "reads the input spec",
-		"golangResolveBaseImport › os.Stat": "module/GOPATH resolution walks parent directories",
-		"tryResolveModule › os.ReadFile":    "reads go.mod of the target module to compute import paths (input of import-path resolution)",
-		"tryResolveModule › os.Stat":        "module resolution",
+		"fileExists › os.Stat":                      "the SkipExists test",
+		"GenOpts.render › os.ReadFile":              "reads a custom template file named by the layout configuration (input)",
+		"ReadConfig › os.Open":                      "config file (input)",
+		"GenOpts.write › os.Stat":                   "directory existence before MkdirAll",
+		"Repository.LoadDir › os.ReadFile":          "custom templates (input)",
+		"Repository.LoadDir › path/filepath.Walk":   "custom templates (input)",
+		"GenOpts.CheckOpts › os.Stat":               "existence of the spec / template dir / target (inputs)",
+		"GenOpts.EnsureDefaults › os.Stat":          "inputs",
+		"findSwaggerSpec › os.Stat":                 "locating the input spec",
+		"ReadConfig › os.Stat":                      "config file (input)",
+		"WithAutoXOrder › os.ReadFile":              "reads the input spec",
+		"golangResolveBaseImport › os.Stat":         "module/GOPATH resolution walks parent directories",
+		"tryResolveModule › os.ReadFile":            "reads go.mod of the target module to compute import paths (input of import-path resolution)",
+		"tryResolveModule › os.Stat":                "module resolution",
 		"checkPrefixAndFetchRelativePath › os.Stat": "GOPATH resolution",
-		"GoLangOpts › os.Stat":              "GOPATH/module resolution",
-		"GoLangOpts › os.ReadFile":          "go.mod of the target module",
-		"resolveGoModFile › os.Stat":        "go.mod lookup in parent directories",
-		"resolveGoModFile › os.Open":        "go.mod lookup in parent directories",
-		"resolveGoModFile › os.ReadFile":    "go.mod lookup in parent directories",
+		"GoLangOpts › os.Stat":                      "GOPATH/module resolution",
+		"GoLangOpts › os.ReadFile":                  "go.mod of the target module",
+		"resolveGoModFile › os.Stat":                "go.mod lookup in parent directories",
+		"resolveGoModFile › os.Open":                "go.mod lookup in parent directories",
+		"resolveGoModFile › os.ReadFile":            "go.mod lookup in parent directories",
 	}
 	for _, cs := range goan.FindCalls([]*packages.Package{gen}, func(n string) bool { return readers[n] }) {
 		k := cs.FnName + " › " + cs.Callee
